@@ -192,7 +192,7 @@ def structure_case(draw):
     els_all = list(radii.keys())
     common = ["H", "C", "N", "O", "Zr", "Cu", "Zn", "Cl", "Se", "Li", "Cs", "Fr", "D"]
     n = draw(hperm.integers(2, 12))
-    ck = draw(st.sampled_from(["none", "ortho", "tilt", "tilt-neg"]))
+    ck = draw(st.sampled_from(["none", "ortho", "tilt", "tilt-neg", "left-handed", "ortho-permuted"]))
     if ck == "none":
         cell = None
         C = np.eye(3) * 12.0
